@@ -282,18 +282,21 @@ def budgets_and_switches(chk, R, rng, n, tag):
 
 
 def assert_constants(chk, R, rng, n, tag):
-    """family of /repo b4e61a4 (F77): constants holding assertions over addresses / labels / banks (global and nested, used
-    and unused) x budgets 1..4, static optimisation OFF: implementation = model including the pass count; a success must
-    be reproduced at every larger budget"""
+    """family of /repo b4e61a4 (F77) and of the #assert DIRECTIVE (resolver/assert.rs): constants holding assertions and
+    `#assert` directives over addresses / labels / constants / banks (global and nested, used and unused, a few label-free
+    programs) x budgets 1..4: implementation with the static optimisation OFF = model including the pass count; with the
+    optimisation ON = model too, except the F70 class (one pass instead of two, no labels, no #assert); a success must be reproduced at every larger budget"""
     budgets = [1, 2, 3, 4]
     progs = [(asm2_gen.gen_assert_prog(rng), rng.chance(0.5)) for _ in range(n)]
-    icases, mcases = [], []
+    icases, mcases, scases = [], [], []
     for (p, m) in progs:
         t = p.text()
         for b in budgets:
             icases.append((t, b, False, m))
+            scases.append((t, b, True, m))
             mcases.append((p, b, m))
     ia = R.impl(icases)
+    sa = R.impl(scases)
     ma = R.model_run(mcases)
     k = len(budgets)
     dist = {"ok": 0, "err": 0, "budget_dependent": 0}
@@ -320,6 +323,23 @@ def assert_constants(chk, R, rng, n, tag):
                 break
         if bad:
             continue
+        # static optimisation ON: identical to the model (pass count included) except for the F70 class: a label-free
+        # program converges in pass 1 at budget 1 (same observable result as the model at budget 2)
+        son = [asm2_gen.canon_impl(x) for x in sa[pi * k:(pi + 1) * k]]
+        for j in range(k):
+            if son[j] == mod[j]:
+                continue
+            j2 = max(j, 1)
+            if son[j][0] == "OK" and son[j][2] == 1 and sig(son[j]) == sig(mod[j2]) and mod[j2][2] == 2 and (j >= 1 or mod[j][0] == "ERR"):
+                # F70: one pass with the optimisation; the model (optimisation off) holds the same result one pass later
+                # (at budget 1 it cannot: ERR); only programs without labels and without #assert directives do this
+                chk.known("F70", F70_TEXT)
+                continue
+            ndis += 1
+            chk.violation("with the static optimisation ON the implementation differs from the model at budget %d (assertion family): impl %s model %s"
+                          % (budgets[j], str(son[j])[:300], str(mod[j])[:300]),
+                          dict(rep, static_opt=True, impl_static_on=[str(sig(r))[:300] + " it=%s" % r[2] for r in son]))
+            break
         for j in range(k):
             if res[j] != mod[j]:
                 ndis += 1
@@ -329,7 +349,7 @@ def assert_constants(chk, R, rng, n, tag):
                 break
         if pi % max(1, n // 2) == 1:
             chk.sample({"program": text, "results": rep["impl"]})
-    chk.count("resolver2_assert_constants_x_budgets" + tag, len(icases), **dist)
+    chk.count("resolver2_assert_constants_x_budgets" + tag, 2 * len(icases), **dist)
     chk.cov["traces_validated_against_impl"] += len(icases)
     chk.cov["disagreements_checked"] += ndis
     return dist, ndis
